@@ -18,24 +18,26 @@ THEOREMS = [("PdfV.Properties.C06", n) for n in [
 ANCHORS = ["crypt.rs"]
 MODES = ["rc4", "crypt_open", "crypt_dec", "crypt_doc"]
 TRUSTED_BASE = ["coqc 8.16.1 kernel (vm_compute for table lemmas and witnesses; no native_compute)",
-                "gen/extract_crypt.py (regenerates PADDING and 50 constants of crypt.rs into Gen/Generated.v)",
+                "gen/extract_crypt.py (regenerates PADDING, the Identity name and 52 constants of crypt.rs into Gen/Generated.v)",
                 "Extraction + ExtrOcamlBasic, ocamlfind ocamlopt 4.13.1, coq/driver/main.ml",
                 "harness pdfh (harness/src/modes/crypt.rs), tools/vplib (comparison)",
                 "tools/oracle/security.py (writer's side of ISO 32000-1 §7.6 / 32000-2 §7.6.4; hashlib; pure-python AES and RC4 "
                 "validated against FIPS-197 / RC4 vectors, the 10 encrypted sample files and RustCrypto through every case), "
                 "tools/oracle/pdfwriter.py, python zlib, python stringprep/unicodedata (SASLprep)",
                 "props/C06/mirror.py (enumerates the oracle queries of the model; a wrong enumeration stops the run as CHECK-BROKEN)"]
-ASSUMPTIONS = ["oracle premises of the theorems (explicit hypotheses): MD5 digests have 16 bytes, SHA-256 digests 32 bytes; "
-               "AES-CBC decryption inverts encryption on whole blocks and preserves length; nothing about collision resistance",
+ASSUMPTIONS = ["oracle premises of the theorems (explicit hypotheses): MD5 digests have 16 bytes, SHA-256/384/512 digests 32/48/64 bytes; "
+               "AES-CBC decryption inverts encryption on whole blocks and preserves length; nothing about collision resistance; "
+               "the R6 theorems hold for every fuel on which Algorithm 2.B is defined (its termination is not proved)",
                "MD5, SHA-256/384/512, AES-128/256-CBC, SASLprep+UTF-8, zlib are answered from per-case tables computed by python "
                "(each table entry is also exercised against the real crates by the correspondence run)",
                "the derive-generated CryptDict::from_primitive is outside the model (the model starts from the parsed dictionary)",
                "Rust u8 wrapping arithmetic, slice bounds and u32 checked_mul as written into the model"]
-RULE = ("crypt_open: handler variants R2 (40 bit), R3 (40..128 step 8), R4 (V2 / AESV2), R5, R6 x passwords (empty, ASCII, 31/32/33/40 bytes, "
+RULE = ("crypt_open: handler variants R2 (40 bit), R3 (40..128 step 8), R4 (V2 / AESV2), R5, R6, and V4/V5 dictionaries whose /StmF and /StrF "
+        "name different crypt filters (RC4 / AES-128 / AES-256 / Identity, Identity explicit or absent, both Identity) x passwords (empty, ASCII, 31/32/33/40 bytes, "
         "bytes >= 0x80, UTF-8 needing SASLprep, >127 bytes) x P x document id x EncryptMetadata x crypt-filter length spelling, opened with the user, "
-        "the owner and wrong passwords, each followed by Decoder::decrypt of payloads of lengths {0,1,15,16,17,31,32,1000} under object numbers up to "
-        "2^24+ and generations up to 65536+; malformed dictionaries (key length 0, /Length overflow, bad R/V, wrong U/O/UE lengths, missing entries, "
-        "non-UTF-8 passwords); crypt_dec: Decoder::new with arbitrary key/size/method on valid and malformed ciphertexts; crypt_doc: whole files written "
+        "the owner and wrong passwords, each followed by Decoder::decrypt (stream data) and Decoder::decrypt_string (strings), alternately, of payloads of lengths {0,1,15,16,17,31,32,1000} under object numbers up to "
+        "2^24+ and generations up to 65536+; malformed dictionaries (key length 0, /Length overflow, bad R/V, wrong U/O/UE lengths incl. empty and 16-byte UE/OE under RC4/AESV2 filters, missing entries, "
+        "non-UTF-8 passwords, two /CF entries of different /Length under every /StmF,/StrF choice); crypt_dec: Decoder::with_methods with arbitrary key/size/methods on valid and malformed ciphertexts; crypt_doc: whole files written "
         "by tools/oracle/pdfwriter.py (tables and xref streams, object streams, direct/indirect /Encrypt, metadata stream with EncryptMetadata on/off, "
         "strings nested in dictionaries/arrays, streams with no/ASCIIHex/ASCII85/Flate filters, generations > 0) read through Storage + Resolve; "
         "rc4: keys of 0..257 bytes.  non-trivial = at least 2 bytes of input; distinct by full case line")
@@ -232,6 +234,11 @@ def malformed_open_cases(rng):
     mk(dict(b4, stmf=b"Identity"), tags=["stmf-identity-name"])
     mk(dict(b4, cf=[]), tags=["no-cf"])
     mk(dict(b4, cf=[(b"Other", 1, 16), (b"StdCF", 2, 16)]), tags=["two-filters"])
+    # /StmF and /StrF name filters that state different key lengths: the code takes the stream filter's (else the string filter's, else /Length)
+    for (l1, l2) in ((16, 5), (5, 16), (None, 5), (5, None), (16, None)):
+        for (sf, tf) in ((b"StdCF", b"Other"), (b"Identity", b"Other"), (b"StdCF", None), (None, b"Other"), (None, None), (b"Identity", b"Identity")):
+            mk(dict(b4, cf=[(b"StdCF", 1, l1), (b"Other", 2, l2)], stmf=sf, strf=tf), tags=["two-filter-lengths"],
+               items=[(3, 0, rand_bytes(rng, 32)), (3, 0, rand_bytes(rng, 32), True)])
     for R in (0, 1, 7, 100):
         mk(dict(base, R=R), tags=["bad-R"])
     for V in (0, 3, 7, -1):
